@@ -385,6 +385,10 @@ def run_c17(ctx):
 
 def c17_pass(ctx, types, root, stage1_deps, stage2_deps, main):
     chunk = 1500
+    # the crates of all tiers, seeds and passes share one target directory (so that truc and its
+    # dependencies are built once): their names must differ, or cargo runs the executable that
+    # another crate of the same name left there
+    uniq = re.sub(r"[^a-z0-9]", "_", os.path.basename(root).lower())
     chunks = [types[i:i + chunk] for i in range(0, len(types), chunk)]
     env = dict(common.ENV)
     env["CARGO_TARGET_DIR"] = os.path.join(common.WORK, "target-tn")
@@ -394,7 +398,7 @@ def c17_pass(ctx, types, root, stage1_deps, stage2_deps, main):
     for ci, ch in enumerate(chunks):
         d = os.path.join(root, "s1_%d" % ci)
         body = "".join("    p::<%s>(%d, %s);\n" % (t, ci * chunk + i, json.dumps(t)) for i, t in enumerate(ch))
-        write_crate(d, "tn_s1_%d" % ci, stage1_deps, STAGE1_HEAD + body + "}\n")
+        write_crate(d, "%s_s1_%d" % (uniq, ci), stage1_deps, STAGE1_HEAD + body + "}\n")
         jobs.append(("s1_%d" % ci, ["cargo", "run", "--offline", "-q"], d, env))
     with common.Lock("tn-build"):
         res = ctx.run_parallel(jobs, 3600, max_workers=4)
@@ -427,7 +431,7 @@ def c17_pass(ctx, types, root, stage1_deps, stage2_deps, main):
                     lit, name, _ = pending[idx]
                     line_of[(ci, len(STAGE2_HEAD.splitlines()) + len(lines) + 1)] = idx
                     lines.append("    check::<%s, %s>(%d);\n" % (lit, name, idx))
-            write_crate(d, "tn_s2_%d" % ci, stage2_deps, STAGE2_HEAD + "".join(lines) + "}\n")
+            write_crate(d, "%s_s2_%d" % (uniq, ci), stage2_deps, STAGE2_HEAD + "".join(lines) + "}\n")
             jobs.append((ci, ["cargo", "run", "--offline", "-q"], d, env))
         with common.Lock("tn-build"):
             res = ctx.run_parallel(jobs, 3600, max_workers=4)
